@@ -19,6 +19,11 @@ type chStringer struct{ n string }
 
 func (s chStringer) String() string { return "node<" + s.n + ">" }
 
+// chPanicKey is a key whose own String method fails.
+type chPanicKey struct{}
+
+func (chPanicKey) String() string { panic("key formatting failed") }
+
 func chNode(kind, name string) any {
 	switch kind {
 	case "struct":
@@ -182,6 +187,18 @@ func (s *chSys) apply(op string) bool {
 			s.r.Failf("after %s: removed node %s still has virtual nodes", op, n)
 		}
 	}
+	// a lookup that fails inside the caller's own key (its String method panics; the caller
+	// recovers) is that caller's problem only: the ring must stay usable - in particular
+	// its lock must be free again, or the next membership change never completes
+	func() {
+		defer func() { recover() }()
+		s.h.Get(chPanicKey{})
+	}()
+	if !s.h.lock.TryLock() {
+		s.r.Failf("after %s: a lookup whose key panicked left the ring locked: the next Add/Remove would block for ever", op)
+		return true
+	}
+	s.h.lock.Unlock()
 	s.assign = s.lookupAll(op)
 	if s.r.Failed() {
 		return true
